@@ -330,6 +330,14 @@ class DeterministicFiniteAutomaton(NondeterministicFiniteAutomaton):
         # Group the equivalent states
         partition = self._get_partition()
         groups = partition.get_groups()
+        # The states in the group of the trash node accept nothing
+        for group in groups:
+            if None in group:
+                states = states.difference(group)
+        if not states.intersection(self._start_state):
+            res = DeterministicFiniteAutomaton()
+            res.add_start_state(State("Empty"))
+            return res
         # Create a state for this
         to_new_states = {}
         merged_states = MergedStates()
